@@ -6,8 +6,9 @@ dict_continue, dict_chain_two, dict_from_data_array, abs_extend (new labels in
 later parts, any order), input_preserved_partial.
 Correspondence: chains of 2..4 real learner calls inside one process over every
 split position, learners drawn per piece from {dict_ndl (dict hand-over),
-dict_ndl (DataArray in / DataArray out), ndl threading, ndl openmp} (Widrow-Hoff
-chains: run_C08), later pieces with and without new cues/outcomes; the final
+dict_ndl (DataArray in / DataArray out), ndl threading, ndl openmp}, and chains
+of wh.wh calls in each of its three vector flavours (stream wh_chain; model:
+whModel's single pass), later pieces with and without new cues/outcomes; the final
 weights are compared exactly with the Lean model's SINGLE pass over the
 concatenation. Every object handed in as `weights` is snapshotted (values,
 coords, attrs) before the call and compared after it and again at the end of
@@ -18,6 +19,7 @@ import itertools
 
 import gen
 import learners as L
+import whgen
 from common import rng
 
 TIMEOUT = 120
@@ -93,3 +95,53 @@ def run(rep, pool, driver, tier):
                            'theorem_or_stream': 'C03 chain_eq_single: chain %s vs single pass of the Lean model' % ' -> '.join(kinds)})
         else:
             rep.sample({'kinds': kinds, 'cut': cut, 'events': es, 'final_cells': impl['cells'][:4]})
+
+    _wh_chains(rep, pool, driver, r, quick)
+
+
+WH_CUES = ['a', 'b', 'c', 'd', 'ä', 'e', 'f', 'g', 'h']
+WH_OUTS = ['x', 'y', 'z', 'ö', 'u', 'v', 'w']
+
+
+def _wh_chains(rep, pool, driver, r, quick):
+    """chains of wh.wh calls (weights= handed on) for the three vector flavours; the first piece uses
+    few names, later pieces bring in several new cues AND outcomes at once (their hash order and their
+    order of first occurrence differ); every split position"""
+    tasks = []
+    for i in range(6 if quick else 60):
+        for flavour in ('r2r', 'b2r', 'r2b'):
+            n = r.randint(3, 6)
+            es = []
+            for j in range(n):
+                cues = WH_CUES[:2] if j == 0 else WH_CUES
+                outs = WH_OUTS[:2] if j == 0 else WH_OUTS
+                cs = r.sample(cues, r.randint(1, min(4, len(cues))))
+                os_ = r.sample(outs, r.randint(1, min(3, len(outs))))
+                if j == 1:
+                    # the second event alone introduces >= 3 new names on each side, in shuffled order
+                    cs = r.sample(WH_CUES[2:], r.randint(3, 5)) + r.sample(WH_CUES[:2], r.randint(0, 1))
+                    os_ = r.sample(WH_OUTS[2:], 3) + r.sample(WH_OUTS[:2], r.randint(0, 1))
+                es.append([cs, os_])
+            base = {'op': 'wh', 'flavour': flavour, 'events': es, 'eta': r.choice(whgen.ETAS),
+                    'policy': r.choice(['error', 'dedup', 'keep']), 'n_jobs': r.choice([1, 2, 3]),
+                    'per_job': r.choice([1, 2, 3, 10]), 'per_file': r.choice([2, 10000000])}
+            if flavour in ('r2r', 'r2b'):
+                base['cue_vectors'] = whgen.table(r, WH_CUES, r.choice([2, 3, 5, 9]), prefix='cd')
+            if flavour in ('r2r', 'b2r'):
+                base['outcome_vectors'] = whgen.table(r, WH_OUTS, r.choice([2, 3, 4, 7]), prefix='od')
+            for k in (2, 3):
+                sp = list(splits(n, k))
+                for cut in (r.sample(sp, min(len(sp), 2)) if quick else sp):
+                    tasks.append((dict(base, pieces=[es[a:b] for a, b in cut]), cut))
+    impls = pool.map([t for t, _ in tasks])
+    models = driver.ask([whgen.model_request(t) for t, _ in tasks])
+    for (t, cut), impl, model in zip(tasks, impls, models):
+        rep.case({k: v for k, v in t.items() if k != 'op'}, nontrivial=True, stream='wh_chain')
+        rep.count('wh_chain:' + t['flavour'])
+        rep.count('chain_len:%d' % len(cut))
+        d = whgen.compare(impl, model)
+        if d is not None:
+            rep.violation({'what': d, 'input': t, 'cut': cut, 'observed': impl.get('cells', impl.get('err')),
+                           'expected': model.get('cells', model.get('err')),
+                           'theorem_or_stream': 'C03 chain_eq_single for wh.wh %s: chain of %d calls vs single pass of whModel'
+                                                % (t['flavour'], len(cut))})
